@@ -403,3 +403,16 @@ Qed.
 
 Lemma history_independent_of_flag (fx : bool) : fx = true -> history_independent fx.
 Proof. intros ->. exact history_independent_fixed. Qed.
+
+(* with the reset, every operation depends on the history only through [relevant_prefix] *)
+Lemma out_after_relevant (W : world) (h : list (op W)) (o : op W) :
+  out_after W true h o = out_after W true (relevant_prefix W h o) o.
+Proof.
+  rewrite !out_after_pure.
+  destruct (pexec_shape W true h (ess_of W (init W))) as (A1 & A2 & A3).
+  rewrite (engine_after_fixed W true h eq_refl) in A1.
+  destruct o as [f | t | s t | f | t]; cbn [relevant_prefix pexec pstep snd]; try reflexivity.
+  - destruct (last_load W h) as [g|] eqn:Hl; cbn [pexec pstep fst snd e_cached e_cur];
+      rewrite A1, A2; cbn [ess_of init cached cur e_cached e_cur new_cached]; reflexivity.
+  - destruct (last_parse W h) as [g|] eqn:Hp; cbn [pexec pstep fst snd e_eng]; rewrite A3; reflexivity.
+Qed.
